@@ -115,7 +115,7 @@ def cases(tier, seed):
     for m in list(_special_models()) + list(families.models()) + _purity_only_models():
         for w in WRITERS:
             yield ('W', w, m)
-    for t in families.deep_trees()[::3]:
+    for t in families.deep_trees():
         for w in WRITERS:
             yield ('W', w, cm.on_carrier([t]))
     from . import rt
